@@ -277,6 +277,8 @@ def _nonuniform(rng):
         widths[i] = w * r
         widths[j] = w / r
     lo = float(rng.uniform(-50, 50)) * w
+    if rng.random() < 0.3 and r >= 1.5 and w >= 1.0:
+        lo = float(rng.choice([1e5, 1e6, -3e5]))         # edge values much larger than the irregularity of the widths (w * (r - 1) >= 0.5)
     edges = lo + np.concatenate([[0.0], np.cumsum(widths)])
     return kind, edges
 
